@@ -180,7 +180,10 @@ func runERRFMT(e *Env) (*Summary, error) {
 		maxLen = 150
 	}
 	leads := []int{0, 1, 3, 40, 80}
-	pads := []int{0, 7}
+	pads := []int{0, 7, 11, 45}
+	if e.Tier == "thorough" {
+		pads = []int{0, 1, 7, 11, 45, 90}
+	}
 	rule := fmt.Sprintf("grid: text length 0..%d × every offset −1..len+1 of the padded query × leading/trailing blanks ∈ %v × padding ∈ %v × {SyntaxError, ExecuteError}; texts have position-dependent characters (period 89 > window 70) so a misaligned window is visible; non-trivial when the text is longer than the 70-byte window or has blanks to trim; distinct by (length, offset, padding, leading blanks)", maxLen, leads, pads)
 	col := NewCollector("ERRFMT", e.Tier, e.Seed, rule)
 	col.sum.Exhaustive = true
